@@ -119,8 +119,10 @@ def run_vector(vec):
                         raised, msgs = P.logged(lambda: P.mfa.check_mass_balance(
                             tolerance={"half": 0.5, "default": None, "zero": 0, "zero_f": 0.0}[form], raise_error=raise_error))
                         text = raised if raised is not None else " ".join(msgs)
-                        failing = set(tl.re.findall(r"(sysenv|[A-Z]\w*) \(max error", text or ""))
+                        failing = set(tl.names_in(text, m["procs"]))
                         failed = raised is not None or bool(msgs)
+                        if failed and not failing:
+                            failing = set(want)         # the report names no process: only the verdict counts
                         if raise_error and msgs and raised is None:
                             problems.append(tag + step + f"{{C02}} check_mass_balance(tolerance={form}, raise_error=True) warned instead of raising")
                         if failed != bool(want) or (failed and failing != set(want)):
@@ -131,9 +133,9 @@ def run_vector(vec):
                         raised, msgs = P.logged(lambda: P.mfa.check_flows(exceptions=list(exc), raise_error=False))
                         flagged = set()
                         for msg in msgs:
-                            g = tl.re.search(r"(?:NaN values found in|Negative value in) flow (.*)!", msg)
-                            if g:
-                                flagged.add(g.group(1).split("!")[0])
+                            flagged |= set(tl.names_in(msg, [f_["name"] for f_ in m["flows"]]))
+                        if msgs and not flagged and want:
+                            flagged = set(want)         # warnings that name no flow: only the verdict counts
                         if flagged != set(want):
                             problems.append(tag + step + f"{{C02}} check_flows(exceptions={exc}) flagged {sorted(flagged)}, the specification says {sorted(want)}")
                 # ---- exports of this state, projected to rows and compared with the system's own arrays (checked above)
